@@ -106,9 +106,13 @@ func OraclePosition(tr *Trace) ([]Finding, int) {
 	for _, e := range tr.Events {
 		deliveredEpoch[[2]uint64{uint64(e.VB), e.Seq}] = epochOf(e.T)
 	}
+	byAck := map[int]uint64{} // furthest acknowledged seqno per vBucket (an acknowledgement marks the vBucket for the next save)
 	for _, r := range tr.Log {
 		if r.K == "cons.ack.ret" {
 			accepted(r.VB, r.Seq, r.T)
+			if assigned[r.VB] && epochOf(r.T) == lastEpoch && r.Seq > byAck[r.VB] {
+				byAck[r.VB] = r.Seq
+			}
 		}
 	}
 	for vb, segs := range tr.Segs {
@@ -165,6 +169,41 @@ func OraclePosition(tr *Trace) ([]Finding, int) {
 		for vb, want := range expected {
 			if st, ok := ck.Store[vb]; ok && epochOf(ck.TCommitCall) == lastEpoch && st[1] > want {
 				fs = append(fs, Finding{"C04", "position", "C04/position/store-ahead", fmt.Sprintf("vb %d: store holds %d, beyond the furthest settled position %d", vb, st[1], want)})
+			}
+		}
+		// ... and nothing less: a check taken after the last acknowledgement (its Commit() is never a rejected one)
+		settledLater := false
+		for _, r := range tr.Log {
+			if (r.K == "cons.ack.call" || r.K == "cons.ack.ret" || r.K == "cons.track") && r.T > ck.TCommitCall {
+				settledLater = true
+			}
+		}
+		if !settledLater && tr.BarrierTimeouts == 0 && epochOf(ck.TCommitCall) == lastEpoch && !tr.Spec.ReadOnly {
+			for vb, want := range expected {
+				// positions reached by reserved-key documents alone are tracked but deliberately not marked for saving
+				if st := ck.Store[vb]; want > resume[vb] && st[1] < want && byAck[vb] == want {
+					fs = append(fs, Finding{"C04", "position", "C04/position/store-behind", fmt.Sprintf("vb %d: the save after the last acknowledgement left %d in the store, the tracked (furthest settled) position is %d", vb, st[1], want)})
+				}
+			}
+		}
+	}
+	// the store never moves backwards (sessions without a rollback or fail-over: one branch per vBucket)
+	if len(tr.Spec.Rollbacks) == 0 && tr.Log != nil {
+		branchChange := false
+		for _, r := range tr.Log {
+			if r.K == "ctl.failover" {
+				branchChange = true
+			}
+		}
+		if !branchChange {
+			high := map[int]storeWrite{}
+			for _, w := range storeWrites(tr) {
+				if h, ok := high[w.VB]; ok && w.Seq < h.Seq && w.Tup.uuid == h.Tup.uuid {
+					fs = append(fs, Finding{"C04", "position", "C04/position/store-backwards", fmt.Sprintf("vb %d: store write at tick %d holds seqno %d after the store held %d (write at tick %d)", w.VB, w.T, w.Seq, h.Seq, h.T)})
+				}
+				if h, ok := high[w.VB]; !ok || w.Seq >= h.Seq {
+					high[w.VB] = w
+				}
 			}
 		}
 	}
@@ -301,6 +340,12 @@ func c04Spec(rng *rand.Rand, i int) (*SessSpec, string) {
 	if i%4 == 3 {
 		kind = "range"
 	}
+	if i%8 == 5 {
+		kind = "gap"
+	}
+	if i%8 == 1 {
+		kind = "ackrace"
+	}
 	for vb := 0; vb < sp.NumVB; vb++ {
 		for s := 0; s < 1+rng.Intn(3); s++ {
 			sp.Backlog[vb] = append(sp.Backlog[vb], genSnap(rng, o, &ctr))
@@ -341,7 +386,49 @@ func c04Spec(rng *rand.Rand, i int) (*SessSpec, string) {
 				sp.Steps = append(sp.Steps, Step{Op: "commit"})
 			}
 		}
+		if sp.Backend == "mem" && rng.Intn(2) == 0 {
+			// a save rejected by the store, then successful ones: the next save still has to write the tracked position of
+			// every vBucket, also of those that stay quiet afterwards
+			sp.Steps = append(sp.Steps, Step{Op: "ack", Sel: "random", N: 2}, Step{Op: "failnext"}, Step{Op: "commit"}, Step{Op: "clearfail"}, Step{Op: "commit"})
+		}
 		sp.Steps = append(sp.Steps, Step{Op: "barrier"}, Step{Op: "ackpar", Sel: "random"}, Step{Op: "reack"}, Step{Op: "reack"}, Step{Op: "stopreaders"}, Step{Op: "barrier"}, Step{Op: "read"}, Step{Op: "check"})
+		return sp, kind
+	}
+	if kind == "ackrace" {
+		// an acknowledgement issued from a worker goroutine is descheduled inside the library between the regression
+		// guard and the store (injected delay at hook point setoffset.checked) while the stream goroutine settles a
+		// newer, library-absorbed event (seqno-advanced / system event) of the same vBucket
+		sp.PNow, sp.PDefer = 0, 1
+		sp.Backlog = map[int][][]ItemSpec{}
+		ctr2 := 0
+		mk := func() ItemSpec {
+			ctr2++
+			return ItemSpec{K: "m", Key: []byte(fmt.Sprintf("r%d", ctr2)), Val: []byte("{}")}
+		}
+		for vb := 0; vb < sp.NumVB; vb++ {
+			sp.Backlog[vb] = [][]ItemSpec{{mk(), mk()}}
+		}
+		sp.PreStore = nil
+		vb := rng.Intn(sp.NumVB)
+		absorbed := []ItemSpec{{K: "a"}, {K: "s", Key: []byte("collX"), Cid: 9}}[rng.Intn(2)]
+		sp.Steps = append(sp.Steps, Step{Op: "barrier"}, Step{Op: "armhook", Sel: "setoffset.checked", N: 1, Ms: 100 + rng.Intn(80)}, Step{Op: "ackbg", VB: vb}, Step{Op: "sleep", Ms: 25},
+			Step{Op: "append", VB: vb, Items: []ItemSpec{mk(), absorbed}}, Step{Op: "barrier"}, Step{Op: "waitbg"}, Step{Op: "barrier"}, Step{Op: "read"}, Step{Op: "check"})
+		return sp, kind
+	}
+	if kind == "gap" {
+		// out-of-order settling, then a rebalance with a delay; the older events are acknowledged (and a save is
+		// requested) while the stream is closed, between AfterStreamStop and the reopen
+		sp.Membership = "kubernetesHa"
+		sp.FirstInfo = [2]int{1, 1}
+		sp.RebalanceDelayMs = 60 + rng.Intn(80)
+		sp.PNow, sp.PDefer = 0, 1
+		sp.Steps = append(sp.Steps, Step{Op: "barrier"}, Step{Op: "ack", Sel: "newest", N: 2 + rng.Intn(4)}, Step{Op: "commit"},
+			Step{Op: "holdeh", Sel: "BRE"}, Step{Op: "membership", N: 1, VB: 2}, Step{Op: "waitheld", Sel: "BRE"},
+			Step{Op: "ack", Sel: []string{"oldest", "random"}[rng.Intn(2)], N: 2 + rng.Intn(6)})
+		if rng.Intn(2) == 0 {
+			sp.Steps = append(sp.Steps, Step{Op: "commit"})
+		}
+		sp.Steps = append(sp.Steps, Step{Op: "releaseeh"}, Step{Op: "waitrebalance", N: 1}, Step{Op: "barrier"}, Step{Op: "read"}, Step{Op: "check"})
 		return sp, kind
 	}
 	// range: dynamic membership, the range shrinks, stale acknowledgements follow
